@@ -121,9 +121,13 @@ def run_plan(plan, seed, choices=None):
     spec = bool(plan['exec'].get('spec'))
     nontrivial = False
     alllog = fc.all_logs()
+    # a request's re-PREPARE travels on a pooled connection (ResponseFuture._reprepare -> _query); the PREPAREs the Cluster itself sends when
+    # a host comes (back) up (_prepare_all_queries) use a connection of their own and belong to no request
+    pool_conns = set(e['conn'] for e in alllog if e['op'] in ('EXECUTE', 'QUERY') and not e.get('sys') and not e.get('use'))
     for i, o in sorted(run.obs.items()):
         r = plan['requests'][i]
-        mine = [e for e in alllog if o.mark <= e['seq'] and (e.get('rid') == i or (e['op'] == 'PREPARE' and e['seq'] < getattr(o, 'mark_end', 10 ** 12)))]
+        mine = [e for e in alllog if o.mark <= e['seq'] and (e.get('rid') == i or (e['op'] == 'PREPARE' and e['conn'] in pool_conns and
+                                                                                      e['seq'] < getattr(o, 'mark_end', 10 ** 12)))]
         mine.sort(key=lambda e: e['sent_seq'])
         unprep = [e for e in mine if e.get('unprepared')]
         if not unprep:
